@@ -31,6 +31,17 @@ JUNK = ["", " ", "\n", "\t", "\n\n\n", "#", "# only a comment\n", "\\", "(", ")"
         "if True:\n    pass\nelse:\n    pass\n", "try:\n    pass\nfinally:\n    pass\n", "with a:\n    pass\n", "match x:\n    case _:\n        pass\n"]
 
 
+# constant expressions whose value is too expensive to compute: the formatter must leave them alone, not evaluate them
+HUGE = ["9 ** 9 ** 9", "10 ** 10 ** 10", "1 << 10 ** 10", '"a" * 10 ** 10', "[0] * 10 ** 10", "(9).__pow__(9 ** 9)", "pow(9, 9 ** 9)",
+        "sum(range(10 ** 10))", "len(list(range(10 ** 10)))", "sorted(range(10 ** 10))", '"a".zfill(10 ** 10)', '"a".center(10 ** 10)',
+        "bytes(10 ** 10)", '"%09999999999d" % 1', 'format(1, ">9999999999")', '"{:>{}}".format(1, 10 ** 10)', '"%*d" % (10 ** 10, 1)',
+        '(1).__format__(">9999999999")', "9.0 ** 9 ** 9", "-(9 ** 9 ** 9)", "9 ** 9 ** 9 > 1", "not 9 ** 9 ** 9", "2 ** 2 ** 2 ** 2 ** 2 ** 2",
+        "(2 ** 4000) ** 4000", '"\\t".expandtabs(10 ** 10)', "max(range(10 ** 10))", "any(x for x in range(10 ** 10))", "(1).to_bytes(10 ** 10, 'big')"]
+HUGE_FRAMES = ["if {E}:\n    print(1)\n", "print(1 if {E} else 2)\n", "while {E}:\n    break\n", "def f():\n    assert {E}\n    return 1\n",
+               "x = {E} and 1\n", "print([y for y in range(3) if {E}])\n", "def g(v):\n    if v:\n        return {E}\n    return 0\n",
+               "if {E} or unknown():\n    print(1)\nelse:\n    print(2)\n"]
+
+
 def crash_known(rep: Report, stage: str, error: str, source: str):
     """Id of the listed finding (class crash-signature) that covers this crash, if any."""
     import re
@@ -109,6 +120,9 @@ def inputs(rep: Report, t: str, rng: random.Random) -> List[Tuple[str, str, dict
     for i, j in enumerate(JUNK):
         items.append((f"junk:{i}", j, {}))
         items.append((f"junk-safe:{i}", j, {"safe": True}))
+    for i, e in enumerate(HUGE):
+        for j, frame in enumerate(HUGE_FRAMES):
+            items.append((f"huge:{i}:{j}", frame.replace("{E}", e), {}))
     import crossfeed
     items += crossfeed.inputs(rep, t, rng, per_space=120 if t == "quick" else 1500)
     std = list(corpus.stdlib_files(max_lines=150 if t == "quick" else 400))
